@@ -308,6 +308,26 @@ def rules_strategy(named=("format", "layout", "core", "all"), singles=True, sing
 _SPLIT = re.compile(r"('(?:[^']|'')*'|--[^\n]*\n|/\*.*?\*/)", re.S)
 
 
+def structure_noise(sql, rng):
+    """Generic shapes the corpus and G-sql rarely have: a comment squeezed directly between a name and its opening
+    bracket, a statement wrapped in brackets (with a comment before the closing bracket), several statements."""
+    k = rng.random()
+    if k < 0.4:
+        # comment (and line break) directly before an opening bracket that follows a word: f -- c\n(x)
+        pos = [m.start() for m in re.finditer(r"(?<=\w)[(\[]", sql)]
+        if pos:
+            i = rng.choice(pos)
+            sql = sql[:i] + rng.choice([" -- b1\n", " /* b2 */", "-- b3\n  "]) + sql[i:]
+    elif k < 0.75:
+        body = sql.rstrip().rstrip(";").rstrip()
+        tail = rng.choice(["", " -- e1\n", "\n    -- e2\n", " /* e3 */ "])
+        head = rng.choice(["(", "(\n    ", "( "])
+        sql = head + body + tail + ")" + rng.choice([";\n", "\n;\n", ";\nSELECT 2;\n", "\n"])
+    else:
+        sql = sql.rstrip() + rng.choice(["\n;\nSELECT 1;\n", ";\n-- s1\nSELECT 1\n", " ;  -- s2\n"])
+    return sql
+
+
 def sprinkle_comments(sql, rng, p=0.12):
     """Layout noise the G-sql generator does not produce: comments in the middle of clauses (after commas, operators,
     keywords).  Inserted only at existing blanks outside string literals and comments, so the query stays valid."""
@@ -327,7 +347,7 @@ def sprinkle_comments(sql, rng, p=0.12):
 
 @st.composite
 def fix_case(draw, tier="quick", rules=None, mutate=None, gsql_weight=2, fixture_weight=2, mutated_weight=2,
-             gsql_features=None, kinds=None, comments_inside=False):
+             gsql_features=None, kinds=None, comments_inside=False, structure=False):
     """Corpus fixture (optionally mutated) in any dialect, or a generated valid sqlite query with layout noise."""
     maxsize = size_limit(tier)
     if mutate is False:
@@ -335,11 +355,17 @@ def fix_case(draw, tier="quick", rules=None, mutate=None, gsql_weight=2, fixture
     which = draw(st.sampled_from(["gsql"] * gsql_weight + ["fixture"] * fixture_weight + ["mutated"] * mutated_weight))
     if which == "gsql":
         d = draw(st.sampled_from(["sqlite", "sqlite", "ansi", "postgres", "duckdb"]))
-        c = draw(gens.gsql_case(dialect=d, **(gsql_features or {})))
+        c = draw(gens.gsql_case(dialect=d, uniform=True, **(gsql_features or {})))
         if comments_inside and draw(st.booleans()):
-            c["sql"] = sprinkle_comments(c["sql"], draw(st.randoms(use_true_random=False)))
+            c["sql"] = sprinkle_comments(c["sql"], gens.seeded_rng(draw))
     else:
         c = draw(gens.corpus_case(maxsize=maxsize, mutate=(which == "mutated"), max_ops=2, kinds=kinds))
+    if structure and draw(st.integers(0, 3)) == 0:
+        rng = gens.seeded_rng(draw)
+        if rng.random() < 0.5:
+            c["sql"] = sprinkle_comments(c["sql"], rng)
+        c["sql"] = structure_noise(c["sql"], rng)
+        c["structure_noise"] = True
     c["rules"] = draw(rules if rules is not None else rules_strategy())
     return c
 
